@@ -5,7 +5,7 @@ import numpy as np
 from hypothesis import strategies as st
 
 from vlib import gens
-from vlib.core import Prop, Sub, Violation, calling, check
+from vlib.core import unchanged, Prop, Sub, Violation, calling, check
 from vlib.oracles import _linprog, lp_margin
 from vlib.systems import proportional_variant, Sys, matrix_system, target_rows
 
@@ -101,7 +101,8 @@ def body_under(case):
     with calling(f"fit_underdetermined({kind})"):
         if case["entry"] == "estimator":
             est = sv.make_estimator(w=(None if W is None else w))
-            X, Bp = est.fit_underdetermined(B, underdetermined_opt=arg, l2_eps=eps)
+            with unchanged("under", estimator=est):
+                X, Bp = est.fit_underdetermined(B, underdetermined_opt=arg, l2_eps=eps)
         else:
             from dreye.api.optimize.lsq_linear import lsq_linear_underdetermined
 
